@@ -51,7 +51,12 @@ func Harness_C16_stale_unit() {
 	if first == 0 {
 		first = stu.GetArrival().GetTime()
 	}
-	got := isStaleUnassignedTrip(assigned, []*gtfsrt.TripUpdate_StopTimeUpdate{stu}, ts)
+	stus := []*gtfsrt.TripUpdate_StopTimeUpdate{stu}
+	if vr.Bool("second_stop") { // only the first stop counts
+		later := vr.I64("second.departure")
+		stus = append(stus, &gtfsrt.TripUpdate_StopTimeUpdate{Departure: &gtfsrt.TripUpdate_StopTimeEvent{Time: &later}})
+	}
+	got := isStaleUnassignedTrip(assigned, stus, ts)
 	vr.Assert("C16.stale.rule", got == vr.And(!assigned, vr.Or(first == 0, first < int64(ts))))
 	vr.Assert("C16.stale.empty", isStaleUnassignedTrip(assigned, nil, ts) == !assigned)
 }
